@@ -239,6 +239,8 @@ def compare(src, out):
                 if (x == ('op', '(')) != (y == ('op', '(')) or (x == ('op', ')')) != (y == ('op', ')')):
                     ctx = [expref._val(t) for t in (ca[max(0, p - 4):p + 5]) if expref._val(t) in expref.PREC or expref._val(t) in expref.UNARY]
                     cls = 'parentheses:' + '_'.join(ctx[:3])
+                if x == ('op', '{') and y != ('op', '{'):
+                    cls = 'interval-desugared'
                 res.append(('not-equivalent/%s/%s' % (cons, cls), '%s %s: source ...%s  |  output ...%s' % (k[0], k[1], expref.render(ca[max(0, p - 6):p + 6], 110), expref.render(cb[max(0, p - 6):p + 6], 110))))
     return res
 
